@@ -22,8 +22,20 @@ use svproto::*;
 // shared: prelude + probe
 
 const PRELUDE: &str = "(define (probe-fib n) (if (< n 2) n (+ (probe-fib (- n 1)) (probe-fib (- n 2)))))\n(define probe-counter (let ((n 0)) (lambda () (set! n (+ n 1)) n)))\n(define probe-box (box 41))\n(probe-counter)";
-const PROBE: &str = "(list (probe-fib 10) (probe-counter) (begin (set-box! probe-box (+ 1 (unbox probe-box))) (unbox probe-box)) (#%verif-depths))";
-const PROBE_EXPECT: &str = "(i:55 i:2 i:42 (i:0 . i:0))";
+const PROBE: &str = "(#%verif-depths)\n(list (probe-fib 10) (probe-counter) (begin (set-box! probe-box (+ 1 (unbox probe-box))) (unbox probe-box)))";
+const PROBE_EXPECT: &str = "(i:0 . i:0) (i:55 i:2 i:42)";
+
+/// "file.rs:line" of a panic message of the form "... @ /path/to/file.rs:line"
+fn panic_site(msg: &str) -> String {
+    match msg.rsplit_once(" @ ") {
+        Some((_, loc)) => {
+            let loc = loc.lines().next().unwrap_or("");
+            let parts: Vec<&str> = loc.rsplit('/').take(2).collect();
+            parts.into_iter().rev().collect::<Vec<_>>().join("/")
+        }
+        None => "unknown".to_string(),
+    }
+}
 
 /// judge the result of [prelude, input..., probe]; `inputs` = number of input steps
 fn judge_usable(tag: &str, r: &CaseResult, inputs: usize, shown: &str, cfg: &Config) -> Result<bool, Failure> {
@@ -33,15 +45,20 @@ fn judge_usable(tag: &str, r: &CaseResult, inputs: usize, shown: &str, cfg: &Con
         End::Watchdog | End::Oom => return Ok(false),
         End::Signal(s) => {
             return Err(Failure::new(
-                format!("{}:signal", tag),
+                format!("{}:signal:{}", tag, r.stderr_tail.lines().find(|l| l.contains("[panic ")).map(panic_site).unwrap_or_else(|| format!("sig{}", s))),
                 format!("{}\nengine process died with signal {} in step {}\nstderr: {}", ctxt, s, r.steps.len(), r.stderr_tail),
             ))
         }
         End::Exit(c) => return Err(Failure::new(format!("{}:exit", tag), format!("{}\nengine process exited with status {} in step {}", ctxt, c, r.steps.len()))),
     }
     for (i, st) in r.steps.iter().enumerate() {
+        if st.outcome == Outcome::Panic && st.err_msg.contains("capacity overflow") {
+            // a request for more memory than the address space holds ((range 4611686018427387904)):
+            // resource exhaustion, judged like an out-of-memory abort
+            return Ok(false);
+        }
         if st.outcome == Outcome::Panic {
-            return Err(Failure::new(format!("{}:panic", tag), format!("{}\nstep {} panicked: {}", ctxt, i, st.err_msg)));
+            return Err(Failure::new(format!("{}:panic:{}", tag, panic_site(&st.err_msg)), format!("{}\nstep {} panicked: {}", ctxt, i, st.err_msg)));
         }
     }
     if r.steps.len() != inputs + 2 {
@@ -381,6 +398,14 @@ fn handle(ctx: &Ctx, c: &Case07, r: PropResult, counting: bool, sub: &str) -> Pr
     }
 }
 
+/// a stored program of the C01 generator (panics / aborts of the JIT tier found there)
+fn check_prog(ctx: &Ctx, ws: &mut Workers, c: &crate::checks::c01::ProgCase) -> PropResult {
+    let mut c = c.clone();
+    c.text = svmodel::ast::render_program(&c.program);
+    let cfgs = [Config::default_cfg(), Config::jit_off()];
+    crate::checks::c01::check_case_with(ctx, ws, &c, false, &cfgs, true, "c07", &[crate::progcheck::Entry::Repl, crate::progcheck::Entry::Module], false, &|_, _| false)
+}
+
 pub fn run(ctx: &Ctx, replay: Option<&str>) -> i32 {
     ctx.set_rule(
         "(a) texts: C01 programs with 1-5 token-level mutations (delete, duplicate, swap, splice/replace from a dictionary of special \
@@ -395,6 +420,21 @@ pub fn run(ctx: &Ctx, replay: Option<&str>) -> i32 {
     c06::set_avoid(ctx);
     if let Some(path) = replay {
         let Some(rf) = load_replay::<Case07>(std::path::Path::new(path)) else {
+            // panics found by the C01 program generator are stored in its format
+            if let Some(rf) = load_replay::<crate::checks::c01::ProgCase>(std::path::Path::new(path)) {
+                let mut ws = Workers::new();
+                return match check_prog(ctx, &mut ws, &rf.case) {
+                    Ok(()) => {
+                        println!("replay {}: property holds", path);
+                        0
+                    }
+                    Err(f) => {
+                        println!("VIOLATION property={} replay={}", ctx.prop, path);
+                        println!("  sig: {}\n{}", f.sig, f.detail);
+                        1
+                    }
+                };
+            }
             eprintln!("cannot read replay file {}", path);
             return 2;
         };
@@ -416,6 +456,7 @@ pub fn run(ctx: &Ctx, replay: Option<&str>) -> i32 {
         for sub in ["text", "calls", "hist"] {
             replay_tier::<Case07>(ctx, sub, &mut |c| check(ctx, &mut ws, c, false));
         }
+        replay_tier::<crate::checks::c01::ProgCase>(ctx, "prog", &mut |c| check_prog(ctx, &mut ws, c));
         builtin_names(&mut ws)
     };
     ctx.extra("builtins_fuzzed", serde_json::json!(names.len()));
